@@ -148,6 +148,16 @@ impl Stack {
         self.stack.len()
     }
 
+    /// Number of values on the stack.
+    pub(crate) fn len(&self) -> usize {
+        self.stack.len()
+    }
+
+    /// Truncate the stack to `len` values.
+    pub(crate) fn truncate(&mut self, len: usize) {
+        self.stack.truncate(len);
+    }
+
     /// Truncate the stack to the given frame.
     pub(crate) fn truncate_to_frame(&mut self, frame: &CallFrame) {
         self.stack.truncate(frame.frame_pointer());
@@ -844,6 +854,10 @@ impl Context {
             if let Some(frame) = frame {
                 self.vm.stack.truncate_to_frame(&frame);
             }
+            // The frame that returns to the host is abandoned as well: like for an ordinary
+            // throw, nothing of it may stay on the value stack.
+            let frame = self.vm.frames.last().expect("frame must exist");
+            self.vm.stack.truncate_to_frame(frame);
             return ControlFlow::Break(CompletionRecord::Throw(err));
         }
 
@@ -944,7 +958,12 @@ impl Context {
             }
 
             if exit_early {
-                self.vm.stack.truncate_to_frame(&frame);
+                // This frame returns to the host with the exception: like in the case above where
+                // the throwing frame itself is the `EXIT_EARLY` one, nothing of it (nor of the
+                // frames popped on the way) may stay on the stacks.
+                self.vm.frame_mut().environments.truncate(env_fp as usize);
+                let frame = self.vm.frames.last().expect("frame must exist");
+                self.vm.stack.truncate_to_frame(frame);
                 return ControlFlow::Break(CompletionRecord::Throw(
                     self.vm
                         .pending_exception
